@@ -7,8 +7,62 @@ use meshless_voronoi::integrals::{AreaCentroidIntegral, VolumeCentroidIntegral};
 use meshless_voronoi::verif_hooks as hooks;
 use proptest::strategy::BoxedStrategy;
 
+/// Near-exact lattices whose ties are broken at the level of the coordinate rounding: a k^d
+/// lattice in a box far from the origin (|anchor| up to 2^30 widths), every coordinate perturbed
+/// by s * L * 2^-j with j in 38..54 (L = coordinate scale, u = 2^-53). This is the band in which
+/// the floating point filter of the clip test must defer to the exact predicate; a uniform or
+/// fixed-magnitude perturbation never lands in it.
+fn rounding_level_lattices() -> BoxedStrategy<Case> {
+    use proptest::prelude::*;
+    (
+        (1u8..=3, any::<bool>(), 2usize..=5, any::<bool>(), 0u32..=30, [any::<bool>(), any::<bool>(), any::<bool>()]),
+        ([1.0f64..2.0, 1.0f64..2.0, 1.0f64..2.0], -8i32..=8, [0u32..3, 0u32..3, 0u32..3], 38u32..=54),
+        proptest::collection::vec([-1.0f64..1.0, -1.0f64..1.0, -1.0f64..1.0], 125),
+        (0u8..6, any::<u32>()),
+    )
+        .prop_map(|((dim, periodic, k, boundary, m, sign), (mant, e, asp, j), pert, (mask_kind, mp))| {
+            let d = dim as usize;
+            let mut width = [1.; 3];
+            let mut anchor = [0.; 3];
+            for a in 0..3 {
+                width[a] = if m % 3 == 0 { 2f64.powi(e + asp[a] as i32) } else { mant[a] * 2f64.powi(e + asp[a] as i32) };
+                anchor[a] = if a < d { (if sign[a] { 1. } else { -1. }) * 2f64.powi(m as i32) * width[a] * if m % 2 == 0 { 1. } else { mant[(a + 1) % 3] } } else { 0. };
+            }
+            for a in d..3 {
+                width[a] = 1.;
+            }
+            let mut c = Case { dim, periodic, anchor, width, family: "Lr".into(), ..Case::default() };
+            let l = c.scale_l();
+            let delta = l * 2f64.powi(-(j as i32));
+            let npts = k.pow(d as u32);
+            for i in 0..npts {
+                let mut g = [0.; 3];
+                let mut r = i;
+                for a in 0..d {
+                    let s = r % k;
+                    r /= k;
+                    let t = if boundary { s as f64 / (k - 1) as f64 } else { (s as f64 + 0.5) / k as f64 };
+                    let x = anchor[a] + t * width[a] + pert[i][a] * delta;
+                    g[a] = x.max(anchor[a]).min(anchor[a] + width[a]);
+                }
+                c.gens.push(g);
+            }
+            gen::repair_distinct(&mut c);
+            let n = c.n();
+            c.mask = match mask_kind {
+                0 => Some((0..n).map(|i| (mp >> (i % 32)) & 1 == 1).collect()),
+                1 => Some((0..n).map(|i| i == mp as usize % n).collect()),
+                _ => None,
+            };
+            c
+        })
+        .boxed()
+}
+
 fn strategy(_tier: Tier) -> BoxedStrategy<Case> {
-    gen::case_strategy(GenOpts { max_n: 64, big_n_weight: 1, fams: DEGENERATE_FAMS.to_vec(), masks: MaskMode::Mixed, max_offset_log2: 20, ..GenOpts::default() })
+    use proptest::prelude::*;
+    let base = gen::case_strategy(GenOpts { max_n: 64, big_n_weight: 1, fams: DEGENERATE_FAMS.to_vec(), masks: MaskMode::Mixed, max_offset_log2: 20, ..GenOpts::default() });
+    prop_oneof![3 => base, 1 => rounding_level_lattices()].boxed()
 }
 
 fn finite3(v: &[f64; 3]) -> bool {
@@ -63,13 +117,51 @@ pub fn total_and_finite(c: &Case, cs: &mut CaseStats) -> Result<(), String> {
     Ok(())
 }
 
+/// Clause 3: the returned values satisfy C01-C04 (their oracles, unchanged, on the degenerate
+/// stream). Labels and counters of the sub-oracles are merged under a prefix.
+fn sub_oracle(name: &str, f: crate::runner::CheckFn, c: &Case, cs: &mut CaseStats) -> Result<(), String> {
+    let mut sub = CaseStats::default();
+    let r = f(c, &mut sub);
+    cs.count(&format!("{name}_oracle_runs"), 1);
+    if sub.nontrivial {
+        cs.count(&format!("{name}_oracle_nontrivial"), 1);
+    }
+    for l in sub.labels {
+        if l.starts_with("known-finding") || l == "unresolvable-arrangement" {
+            cs.label(l);
+        }
+    }
+    r.map_err(|m| if m.starts_with("INFRA:") { m } else { format!("{name} oracle on a degenerate input: {m}") })
+}
+
 pub fn check(c: &Case, cs: &mut CaseStats) -> Result<(), String> {
     gen::classify(c, cs);
     if !gen::is_valid(c) {
         return Err("INFRA: generator produced an invalid case".into());
     }
     total_and_finite(c, cs)?;
-    if cs.labels.contains("exact-path") || cs.labels.contains("gen-on-wall") || c.n() == 1 {
+    // smallest separation relative to the coordinate scale
+    let n = c.n();
+    let mut min_sep = f64::INFINITY;
+    if n <= 200 {
+        for i in 0..n {
+            for j in 0..i {
+                min_sep = min_sep.min(gen::active_dist(c, &c.gens[i], &c.gens[j]));
+            }
+        }
+    }
+    if min_sep <= 1e-9 * c.scale_l() {
+        cs.label("separation<=1e-9L");
+    }
+    if c.mask.is_none() {
+        sub_oracle("C02", super::c02::check, c, cs)?;
+        if n <= 24 {
+            sub_oracle("C01", super::c01::check, c, cs)?;
+        }
+    }
+    sub_oracle("C03", super::c03::check, c, cs)?;
+    sub_oracle("C04", super::c04::check, c, cs)?;
+    if cs.labels.contains("exact-path") || cs.labels.contains("gen-on-wall") || n == 1 || cs.labels.contains("separation<=1e-9L") {
         cs.nt();
     }
     Ok(())
@@ -78,13 +170,13 @@ pub fn check(c: &Case, cs: &mut CaseStats) -> Result<(), String> {
 pub fn def() -> PropDef {
     PropDef {
         id: "C05",
-        rule: "TODO",
+        rule: "cases: 3/4 from the degenerate-weighted family mix (exact lattices cell-centred and boundary-including, lattices perturbed by 1e-16..1e-6 and by 0.5..1 cell, points snapped to faces / edges / all corners, co-spherical and co-circular sets with radial perturbations 1e-15..1e-9, collinear / coplanar / layered sets, dyadic rationals, shared-coordinate pools, clusters of diameter 1e-3..1e-12, n = 1 and 2, uniform), n to 64, masks mixed, offsets to 2^20; 1/4 rounding-level lattices: k^d lattices (k = 2..5) in boxes up to 2^30 widths from the origin with every coordinate perturbed by s L 2^-j, j = 38..54 (ties broken at the level of the coordinate rounding); all dimensionalities, periodic or not. Executed in the release AND in the debug-assertions build. oracle: (1) no panic from Voronoi::build / build_partial / VoronoiIntegrator::build / with_faces / Voronoi::from, (2) every returned number finite, (3) the unchanged oracles of C02 (tiling), C03 (reciprocity), C04 (normals, closure, divergence) on the same result and of C01 (brute-force reference) for unmasked n <= 24. non-trivial: the exact predicate was consulted (hook counter) or a generator lies on a wall or n = 1 or the smallest separation is <= 1e-9 L; distinct by case hash; evidence carries the number of exact-predicate invocations and exact zeros.",
         strategy,
         check,
-        cases: |t| t.pick(3000, 100_000),
+        cases: |t| t.pick(12_000, 400_000),
         profiles: &["release", "dbg"],
-        required: &["exact-path", "gen-on-wall", "n=1"],
+        required: &["exact-path", "gen-on-wall", "n=1", "fam:Lr", "separation<=1e-9L", "dim1", "dim2", "dim3", "periodic"],
         fixed: None,
-        assumptions: &[],
+        assumptions: &["valid input as in C01 (closed box, separation >= 2^-44 L)", "exemptions of the sub-oracles as stated for C01-C04 (ill-conditioned cells, unresolvable arrangements, low-dimensional areas at coordinates > 1e10)", "termination is observed as finishing within the watchdog; a watchdog hit is reported as inconclusive"],
     }
 }
